@@ -197,6 +197,23 @@ def handle(ctx, cases, tag, parallel=8):
     ctx.judge_extra.clear()
 
 
+def observe(ctx, groups):
+    """run all jobs of the groups through ONE pool of worker processes (import + JIT once per process), then let
+    TLC judge each homogeneous group"""
+    jobs = [j for _, js, _ in groups for j in js]
+    cases = core.run_jobs("stencil_worker", jobs)
+    k = 0
+    for tag, js, par in groups:
+        part = cases[k:k + len(js)]
+        k += len(js)
+        handle(ctx, part, tag, parallel=par)
+        if tag == "windows_3x3":
+            for c in part[:40000:9973]:
+                ctx.sample({"kind": "window", "vals": c["job"]["vals"], "meta": c["job"]["meta"],
+                            "dtype": c["job"]["dtype"],
+                            "observed_centre": {f: c["raw"][f][1][1] for f in c["raw"]} if "raw" in c else None})
+
+
 def replay(ctx, rec):
     """re-run exactly the recorded job through the real functions and the judge"""
     setup(ctx)
@@ -276,8 +293,7 @@ def run(ctx):
     ctx.exhaustive = True
 
     # ------------------------------------------------------------------ R: the cell-size case analysis, directly
-    cases = core.run_jobs("stencil_worker", cellsize_jobs())
-    handle(ctx, cases, "cellsize_cases", parallel=1)
+    groups = [("cellsize_cases", cellsize_jobs(), 1)]        # (tag, jobs, judge JVMs); observed in one worker pool
 
     # ------------------------------------------------------------------ R: every window as its own 3x3 raster
     jobs = []
@@ -292,11 +308,10 @@ def run(ctx):
             jobs.append(f_job(window(i, 3), i))
         for i in rng.sample(range(4 ** 9), 4000):
             jobs.append(f_job(window(i, 4), i))
-    cases = core.run_jobs("stencil_worker", jobs)
-    handle(ctx, cases, "windows_3x3")
-    for c in cases[:40000:9973]:
-        ctx.sample({"kind": "window", "vals": c["job"]["vals"], "meta": c["job"]["meta"], "dtype": c["job"]["dtype"],
-                    "observed_centre": {f: c["raw"][f][1][1] for f in c["raw"]} if "raw" in c else None})
+    groups.append(("windows_3x3", jobs, 8))
+    if thorough:            # the big batch on its own (memory), everything else shares one pool
+        observe(ctx, groups)
+        groups = []
 
     # ------------------------------------------------------------------ R: windows tiled into 6x9 rasters
     jobs = []
@@ -319,8 +334,7 @@ def run(ctx):
         H, W = rng.choice([(4, 7), (5, 5), (7, 4), (3, 8)])
         rows = sprinkle_nan(rng, rand_raster(rng, H, W, "smallint"), rng.choice([0, 0.05, 0.15]))
         jobs.append(f_job(rows, t, az=rng.choice([225, 10, 100, 180, 271, 359]), alt=rng.choice([25, 5, 60, 89])))
-    cases = core.run_jobs("stencil_worker", jobs)
-    handle(ctx, cases, "tiled_rasters")
+    groups.append(("tiled_rasters", jobs, 8))
 
     # ------------------------------------------------------------------ T: seeded metamorphic cases on the real code
     def base(kind, mode, nan=True, square=False, dtypes=("float64", "float32")):
@@ -338,7 +352,7 @@ def run(ctx):
         j["H"], j["W"], j["vals"] = H, W, rand_raster(rng, H, W, "float")
         j["meta"] = rand_meta(rng, H, W)
         jobs.append(j)
-    handle(ctx, core.run_jobs("stencil_worker", jobs), "general_rasters", parallel=4)
+    groups.append(("general_rasters", jobs, 4))
 
     jobs = []
     for _ in range(ctx.pick(400, 5000)):
@@ -347,7 +361,7 @@ def run(ctx):
         old = j["vals"][j["p"][0]][j["p"][1]]
         j["v"] = rng.choice(["nan", round(rng.uniform(-500, 500), 2), 0, 10 ** 6]) if old != "nan" else rng.choice([0, 3.5, -80])
         jobs.append(j)
-    handle(ctx, core.run_jobs("stencil_worker", jobs), "perturbation", parallel=4)
+    groups.append(("perturbation", jobs, 4))
 
     jobs = []
     for _ in range(ctx.pick(300, 4000)):
@@ -356,7 +370,7 @@ def run(ctx):
             j["vals"] = [[0 if v == "nan" else v for v in row] for row in j["vals"]]
         j["k"] = rng.choice([1, 7, -13, 1000, 65536, -40000])
         jobs.append(j)
-    handle(ctx, core.run_jobs("stencil_worker", jobs), "plus_constant", parallel=4)
+    groups.append(("plus_constant", jobs, 4))
 
     jobs = []
     for _ in range(ctx.pick(300, 4000)):
@@ -368,10 +382,11 @@ def run(ctx):
             j["meta"]["rk"] = "none"
             j["meta"]["rx"] = j["meta"]["ry"] = [1, 1]
         jobs.append(j)
-    handle(ctx, core.run_jobs("stencil_worker", jobs), "rot90", parallel=4)
+    groups.append(("rot90", jobs, 4))
 
     jobs = [base("S", rng.choice(["float", "int"])) for _ in range(ctx.pick(100, 1000))]
-    handle(ctx, core.run_jobs("stencil_worker", jobs), "summarize_terrain", parallel=2)
+    groups.append(("summarize_terrain", jobs, 2))
+    observe(ctx, groups)
 
 
 META = {
